@@ -407,6 +407,9 @@ def r09d(ctx, P):
                Site(f, b, i).loc())
 
 
+THOROUGH_FEATURES = ['r09d']
+
+
 def run(ctx, progs):
     P = progs.get("default")
     r09a(ctx, P)
